@@ -304,10 +304,33 @@ def date_codec(prog: Program, rep, rule="date-codec"):
     else:
         f = prog.need_method(dt, "read")
         rep.fail(rule, MOD, "BTSDate.read", fmts.get("read", (None, f.node))[1], f"BTSDate read/write struct formats differ: { {k: v[0] for k, v in fmts.items()} }", construct="BTSDate struct format")
+    from .facts import return_leaves, path_returns
     for mname, inner in (("bread", "BTSDate.read"), ("bwrite", "BTSDate.write")):
         f = prog.need_method(dt, mname)
-        if not _calls(f, inner):
+        if _calls(f, inner):
+            continue
+        # the stream method may spell out the bytes-level method: accept it when, with the inner method's parameter substituted,
+        # it evaluates the very same expression
+        g = prog.need_method(dt, inner.split(".")[1])
+        gl = return_leaves(g.node)
+        same = False
+        if len(gl) == 1 and gl[0][1] is not None and g.params:
+            want = norm(gl[0][1])
+            gp = g.params[0]
+            if mname == "bwrite":
+                args = [x.args[0] for pe in path_returns(f.node) for e in pe.effects for x in ast.walk(e)
+                        if isinstance(x, ast.Call) and isinstance(x.func, ast.Attribute) and x.func.attr == "write" and norm(x.func.value) == f.params[0] and x.args]
+                same = bool(args) and all(norm(a) == want.replace(gp, f.params[1]) if len(f.params) > 1 else False for a in args)
+            else:
+                fl = return_leaves(f.node)
+                rd_ = f"{f.params[0]}.read("
+                same = bool(fl) and all(v is not None and rd_ in norm(v) and norm(v).replace(norm(next(x for x in ast.walk(v) if isinstance(x, ast.Call) and isinstance(x.func, ast.Attribute)
+                                                                                                        and x.func.attr == "read" and norm(x.func.value) == f.params[0])), gp) == want
+                                         for _, v, _ in fl)
+        if not same:
             rep.fail(rule, MOD, f"BTSDate.{mname}", f.node, f"{mname} no longer goes through {inner}", construct=f"BTSDate.{mname}")
+        else:
+            rep.ok(rule, f"BTSDate.{mname} evaluates the same expression as {inner}")
     br = prog.need_method(dt, "bread")
     rd = [c for c in walk_no_nested(br.node) if isinstance(c, ast.Call) and isinstance(c.func, ast.Attribute) and c.func.attr == "read" and norm(c.func.value) == br.params[0]]
     if rd and norm(rd[0].args[0]) == "4":
